@@ -202,3 +202,6 @@ Proof.
     + intros H. inversion H. tauto.
     + intros H. f_equal; [apply Haiff|apply Hbiff]; tauto.
 Qed.
+
+Lemma slice_empty_gen {A} (l:list A) a b : b <= a -> slice l a b = [].
+Proof. intros H. unfold slice. replace (Z.to_nat (b - a)) with 0%nat by lia. reflexivity. Qed.
